@@ -921,4 +921,5 @@ def run(prog, rep, tier, snap):
     from ..rules import valist
     rep.rule("R06.6", "the buffered writer never formats from a consumed va_list (records larger than the write buffer)", 1)
     valist.r_valist(prog, rep, "R06.6", only=("fdprintf",))
+    rep.call(valist.r_stale_room, prog, rep, "R06.6")
 READY = True
